@@ -29,6 +29,9 @@ def run(P, rep, tier):
                        'decided by abstract interpretation of the handlers on lazy tokens; writers of Token.line_no by who-may-write over all units; '
                        'the .loc directive by enumerating every path of gen_expr/gen_stmt up to the first line they write for their own node, from any remembered state '
                        '(a conditional or cached .loc that looks at less than file and line is a violation; a cache over both is reported as undecided). '
+                       'That the #line state is per inclusion is decided by provenance: new_file, tokenize_file and every function that reads a file are explored '
+                       'from any remembered state, and each Token/File pointer they hand to a callee or return must stem from the producing call of the same path or from a parameter, '
+                       'never from a static, a global or a table (R18.8). '
                        'Not decided: positions for all inputs end to end.')
     rep.assumptions += ['the output cursor of an in-place filter never overtakes its input cursor (reads see unmodified input)',
                         'no token starts at a newline character', 'calloc succeeds']
